@@ -22,7 +22,7 @@ const (
 func (r SatResult) String() string { return [...]string{"unsat", "sat", "unknown"}[r] }
 
 type Solver struct {
-	kind    string // z3 | z3-new | cvc5 | cvc5-int
+	kind    string // z3 | z3-new | z3-new-t | cvc5 | cvc5-int
 	cmd     *exec.Cmd
 	in      io.WriteCloser
 	out     *bufio.Reader
@@ -46,7 +46,7 @@ func NewSolver(kind string, timeoutMs int, logPath string) (*Solver, error) {
 	switch kind {
 	case "z3":
 		cmd = exec.Command("z3", "-in")
-	case "z3-new", "z3-new-t", "z3-new-m":
+	case "z3-new", "z3-new-t":
 		// z3-new-t: every check runs the default tactic pipeline (simplify, bit-blast, sat) on the current
 		// assertion stack instead of the incremental core; much faster on arithmetic-heavy bit-vector queries
 		cmd = exec.Command("z3-new", "-in")
@@ -222,16 +222,6 @@ func (s *Solver) checkSat() SatResult {
 	if s.kind == "z3-new-t" {
 		s.send(fmt.Sprintf("(check-sat-using (try-for default %d))", s.timeoutMs))
 		r = s.readResult()
-	} else if s.kind == "z3-new-m" {
-		// cheap attempt on the incremental core first, the tactic pipeline when that does not answer quickly
-		s.send("(set-option :timeout 100)")
-		s.send("(check-sat)")
-		r = s.readResult()
-		if r == Unknown && !s.dead {
-			s.send(fmt.Sprintf("(set-option :timeout %d)", s.timeoutMs))
-			s.send(fmt.Sprintf("(check-sat-using (try-for default %d))", s.timeoutMs))
-			r = s.readResult()
-		}
 	} else {
 		s.send("(check-sat)")
 		r = s.readResult()
